@@ -539,21 +539,23 @@ class DictReader:
         elif itype == "addressof":
             name = json_instruction["name"]
             ty = self.get_type(json_instruction["type"])
-            src = self.get_value_ref(json_instruction["src"])
+            src = self.get_value_ref(
+                json_instruction["src"], ty=ir.BlobDataTyp(1, 1)
+            )
             instruction = ir.AddressOf(src, name)
             self.register_value(instruction)
         elif itype == "binop":
             name = json_instruction["name"]
             ty = self.get_type(json_instruction["type"])
-            a = self.get_value_ref(json_instruction["a"])
+            a = self.get_value_ref(json_instruction["a"], ty=ty)
             operation = json_instruction["operation"]
-            b = self.get_value_ref(json_instruction["b"])
+            b = self.get_value_ref(json_instruction["b"], ty=ty)
             instruction = ir.Binop(a, operation, b, name, ty)
             self.register_value(instruction)
         elif itype == "unop":
             name = json_instruction["name"]
             ty = self.get_type(json_instruction["type"])
-            a = self.get_value_ref(json_instruction["a"])
+            a = self.get_value_ref(json_instruction["a"], ty=ty)
             operation = json_instruction["operation"]
             instruction = ir.Unop(operation, a, name, ty)
             self.register_value(instruction)
@@ -643,8 +645,13 @@ class DictReader:
         assert value.name not in self.scopes[-1].value_map
         self.scopes[-1].value_map[value.name] = value
 
-    def get_value_ref(self, name, ty=ir.ptr):
-        """Retrieve reference to a value."""
+    def get_value_ref(self, name, ty=None):
+        """Retrieve reference to a value.
+
+        A value that is not defined yet is represented by a placeholder.
+        When the use at hand determines the type of the value, the
+        placeholder gets that type.
+        """
         for scope in reversed(self.scopes):
             if name in scope.value_map:
                 value = scope.value_map[name]
@@ -652,8 +659,10 @@ class DictReader:
         else:
             if name in self.undefined_values:
                 value = self.undefined_values[name]
+                if ty is not None:
+                    value.ty = ty
             else:
-                value = ir.Undefined(name, ty)
+                value = ir.Undefined(name, ir.ptr if ty is None else ty)
                 self.undefined_values[name] = value
         return value
 
